@@ -11,8 +11,14 @@
 //!           {"op":"del","pred":{"k":"term","t":"a"}},{"op":"del","pred":{"k":"id","id":2}},
 //!           {"op":"commit"},{"op":"merge"},{"op":"merge","from":0,"n":2},{"op":"rollback"}]}
 //! Sort values travel as ranks (order-preserving small integers) plus the raw value as a string.
+//! Every document also carries a text field with positions (`body`) and, depending on `j`
+//! (0 none, 1 all leaves, 2 text leaf only, 3 non-text leaves only; default derived from the id), an
+//! indexed JSON object `js` = {name: text, n: i64, even: bool, d: date, f: f64}.  Per segment the
+//! driver walks the term dictionary of EVERY indexed field (JSON paths included) and logs, for
+//! each term, which documents (ids through the fast field) its posting list designates and at
+//! which positions: `terms: [[term, [[id, [positions]], ...]], ...]`, term = "<field or path>:<value>".
 use serde_json::{json, Value};
-use std::collections::HashMap;
+use std::collections::{BTreeMap, HashMap};
 use std::io::BufRead;
 use std::panic::{catch_unwind, AssertUnwindSafe};
 use tantivy::collector::{Count, DocSetCollector};
@@ -50,6 +56,7 @@ fn parse_key(ty: &str, raw: &str) -> Key {
 }
 
 struct F {
+    js: Field,
     id: Field,
     t: Field,
     u: Field,
@@ -72,7 +79,8 @@ fn schema(ty: &str) -> (Schema, F) {
         "bytes" => sb.add_bytes_field("k", BytesOptions::default().set_fast().set_stored()),
         _ => panic!("unknown key type {ty}"),
     };
-    (sb.build(), F { id, t, u, body, k })
+    let js = sb.add_json_field("js", TEXT);
+    (sb.build(), F { js, id, t, u, body, k })
 }
 
 fn errclass(e: &tantivy::TantivyError) -> String {
@@ -103,13 +111,75 @@ fn body_of(id: u64) -> (u32, u32, String) {
     (nb, tf, s.join(" "))
 }
 
+/// the JSON object of a document (None = the document has no `js`), and its leaves as logged in
+/// the add event: name = token list, n = integer, even = bool, d = seconds, f = float as a string
+fn js_of(id: u64, j: u64) -> Option<(BTreeMap<String, OwnedValue>, Value)> {
+    if j == 0 {
+        return None;
+    }
+    let mut m = BTreeMap::new();
+    let mut ev = serde_json::Map::new();
+    if j == 1 || j == 2 {
+        let (a, b) = (format!("na{}", id % 3), format!("nb{}", id % 2));
+        m.insert("name".to_string(), OwnedValue::Str(format!("{a} {b}")));
+        ev.insert("name".into(), json!([a, b]));
+    }
+    if j == 1 || j == 3 {
+        let n = (id % 4) as i64 - 1;
+        let even = id % 2 == 0;
+        let d = 1_700_000_000i64 + (id % 3) as i64 * 86_400;
+        let f = (id % 3) as f64 + 0.5;
+        m.insert("n".to_string(), OwnedValue::I64(n));
+        m.insert("even".to_string(), OwnedValue::Bool(even));
+        m.insert("d".to_string(), OwnedValue::Date(DateTime::from_timestamp_secs(d)));
+        m.insert("f".to_string(), OwnedValue::F64(f));
+        ev.insert("n".into(), json!(n));
+        ev.insert("even".into(), json!(even));
+        ev.insert("d".into(), json!(d));
+        ev.insert("f".into(), json!(format!("{f}")));
+    }
+    Some((m, Value::Object(ev)))
+}
+
+fn default_j(id: u64) -> u64 {
+    [1, 3, 1, 2, 0, 1, 3][(id % 7) as usize]
+}
+
+/// "<field or json path>:<value>" of one key of a term dictionary; None for a JSON text leaf =
+/// false (no positions to read), Some(true) when the posting list carries positions
+fn render_term(name: &str, typ: Type, key: &[u8], has_pos: bool) -> Result<(String, bool), String> {
+    let fixed = |b: &[u8]| -> Result<u64, String> { b.try_into().map(u64::from_be_bytes).map_err(|_| format!("term of {name}: {} value bytes", b.len())) };
+    let scalar = |typ: Type, b: &[u8]| -> Result<String, String> {
+        Ok(match typ {
+            Type::Str => String::from_utf8(b.to_vec()).map_err(|_| "non utf-8 term".to_string())?,
+            Type::U64 => fixed(b)?.to_string(),
+            Type::I64 => tantivy_common::u64_to_i64(fixed(b)?).to_string(),
+            Type::F64 => format!("{}", tantivy_common::u64_to_f64(fixed(b)?)),
+            Type::Bool => (fixed(b)? != 0).to_string(),
+            Type::Date => DateTime::from_timestamp_nanos(tantivy_common::u64_to_i64(fixed(b)?)).into_timestamp_secs().to_string(),
+            other => format!("?{other:?}"),
+        })
+    };
+    if typ != Type::Json {
+        return Ok((format!("{name}:{}", scalar(typ, key)?), has_pos));
+    }
+    let pos = key.iter().position(|b| *b == 0).ok_or_else(|| "json term without end of path".to_string())?;
+    let path: String = String::from_utf8(key[..pos].to_vec()).map_err(|_| "non utf-8 path".to_string())?.replace('\u{1}', ".");
+    let vb = ValueBytes::wrap(&key[pos + 1..]);
+    let lt = vb.typ();
+    Ok((format!("{name}.{path}:{}", scalar(lt, &key[pos + 2..])?), has_pos && lt == Type::Str))
+}
+
 impl Run {
     fn rank_of(&self, k: &Key) -> i64 {
         self.keys.iter().position(|x| x == k).map(|p| p as i64).unwrap_or(-2)
     }
 
-    fn doc(&self, id: u64, t: &str, k: i64) -> TantivyDocument {
+    fn doc(&self, id: u64, t: &str, k: i64, j: u64) -> TantivyDocument {
         let mut d = TantivyDocument::default();
+        if let Some((obj, _)) = js_of(id, j) {
+            d.add_object(self.f.js, obj);
+        }
         d.add_u64(self.f.id, id);
         d.add_text(self.f.t, t);
         d.add_text(self.f.u, format!("u{id}"));
@@ -256,7 +326,43 @@ impl Run {
                 docs.push(json!([d, id, t, kst, fid, fkr, norms.fieldnorm(d), udocs, tfx.get(&d).cloned().unwrap_or(0)]));
                 n += 1;
             }
-            segs.push(json!({"sid": self.tracer.seg(&sr.segment_id().uuid_string()), "max_doc": sr.max_doc(), "ndel": sr.num_deleted_docs(), "docs": docs}));
+            // every term of every indexed field: which documents, which positions
+            let mut tdump = vec![];
+            let schema = sr.schema().clone();
+            for (field, entry) in schema.fields() {
+                if !entry.is_indexed() {
+                    continue;
+                }
+                let typ = entry.field_type().value_type();
+                let has_pos = entry.field_type().get_index_record_option().map(|o| o.has_positions()).unwrap_or(false);
+                let inv = sr.inverted_index(field).map_err(|e| format!("inv {}: {}", entry.name(), errclass(&e)))?;
+                let mut st = inv.terms().stream().map_err(|e| format!("stream {}: {e}", entry.name()))?;
+                while st.advance() {
+                    let (term, with_pos) = render_term(entry.name(), typ, st.key(), has_pos)?;
+                    let opt = if with_pos { IndexRecordOption::WithFreqsAndPositions } else { IndexRecordOption::Basic };
+                    let mut p = inv.read_postings_from_terminfo(st.value(), opt).map_err(|e| format!("postings of {term}: {e}"))?;
+                    let mut hits = vec![];
+                    let mut posbuf: Vec<u32> = vec![];
+                    while p.doc() != TERMINATED {
+                        let d = p.doc();
+                        if d >= sr.max_doc() {
+                            hits.push(json!([-1, [d]]));
+                        } else if !sr.is_deleted(d) {
+                            posbuf.clear();
+                            if with_pos {
+                                p.positions(&mut posbuf);
+                            }
+                            let ids: Vec<u64> = idcol.values_for_doc(d).collect();
+                            hits.push(json!([ids.first().map(|x| *x as i64).unwrap_or(-1), posbuf]));
+                        }
+                        p.advance();
+                    }
+                    if !hits.is_empty() {
+                        tdump.push(json!([term, hits]));
+                    }
+                }
+            }
+            segs.push(json!({"sid": self.tracer.seg(&sr.segment_id().uuid_string()), "max_doc": sr.max_doc(), "ndel": sr.num_deleted_docs(), "docs": docs, "terms": tdump}));
         }
         let mut byterm = serde_json::Map::new();
         for t in terms {
@@ -291,11 +397,14 @@ impl Run {
         match name {
             "add" => {
                 let (id, t, k) = (op["id"].as_u64().unwrap(), op["t"].as_str().unwrap().to_string(), op["k"].as_i64().unwrap_or(-1));
-                let d = self.doc(id, &t, k);
-                let (nb, tf, _) = body_of(id);
+                let j = op["j"].as_u64().unwrap_or_else(|| default_j(id));
+                let d = self.doc(id, &t, k, j);
+                let (nb, tf, body) = body_of(id);
+                let toks: Vec<&str> = body.split(' ').collect();
+                let js = js_of(id, j).map(|x| x.1);
                 let raw = if k >= 0 { json!(self.raws[k as usize]) } else { json!("missing") };
                 match self.writer.as_ref().unwrap().add_document(d) {
-                    Ok(o) => json!({"ev":"add","ok":true,"id":id,"t":t,"v":k,"raw":raw,"nb":nb,"tf":tf,"opstamp":o}),
+                    Ok(o) => json!({"ev":"add","ok":true,"id":id,"t":t,"v":k,"raw":raw,"nb":nb,"tf":tf,"toks":toks,"js":js,"opstamp":o}),
                     Err(e) => json!({"ev":"add","ok":false,"id":id,"err":errclass(&e)}),
                 }
             }
